@@ -28,7 +28,13 @@ def camel_to_snake(name: str) -> str:
 
 def snake_to_camel(name: str) -> str:
     """Converts a snake case string to camel case."""
-    return "".join([i.capitalize() for i in name.split("_")])
+    parts = name.split("_")
+    # Keep the separator between two numbers, otherwise the names of
+    # array elements such as `x_1_11` and `x_11_1` would clash
+    return "".join(
+        ("_" if i > 0 and part.isdigit() and parts[i - 1].isdigit() else "") + part.capitalize()
+        for i, part in enumerate(parts)
+    )
 
 
 def short_dir(direction: str) -> str:
